@@ -32,7 +32,11 @@ RULE = ("geometry: sizes^3 x resolutions^3 x target chunk sizes x max_scales "
         "chunk sizes with about target^3 voxels; last scale within two "
         "target chunks per axis; every axis further than sqrt(2) from the finest one catches up, none drifts away; encoders accept "
         "every scale; consecutive scales compatible with the pyramid "
-        "computation. Non-trivial: >= 2 scales generated.")
+        "computation. Consumer family: 4^3 (thorough 8^3) sizes incl. "
+        "one-voxel axes x 6 resolution triples x targets {2,4} ({1,2,4,8}): "
+        "the generated description is given to the real "
+        "compute_dyadic_scales on a tiny dataset, which must accept it and "
+        "leave every level readable. Non-trivial: >= 2 scales generated.")
 ASSUMPTIONS = [
     "'compatible chunk sizes' = the envelope compute_dyadic_downscaling "
     "handles: per axis the new chunk is assembled from 1 or 2 downscaled old "
@@ -245,6 +249,89 @@ def _eval_geometry(col, size, res, target, max_scales, via_file=False):
            "geometry-ok" if ok else "geometry-bad")
 
 
+CONSUMER_RES = [(1, 1, 1), (100, 100, 800), (3200, 50, 50), (1, 4, 2),
+                (2, 1, 1), (1, 1, 16)]
+
+
+def consumer_cases(tier):
+    sizes = (1, 3, 8, 30) if tier == "quick" else (1, 2, 3, 5, 8, 17, 30, 40)
+    targets = (2, 4) if tier == "quick" else (1, 2, 4, 8)
+    return [(size, res, t) for size in itertools.product(sizes, repeat=3)
+            for res in CONSUMER_RES for t in targets]
+
+
+def _eval_consumer(col, size, res, target):
+    """'usable': the generated description is handed to the REAL pyramid
+    computation (not to my model of what it supports): tiny raw dataset,
+    full-resolution scale written, compute_dyadic_scales must accept every
+    pair of scales my envelope accepts and leave every level readable.
+    (Whether the voxel values are right is C06's business.)"""
+    import numpy as np
+
+    from mc import pipeline
+    from neuroglancer_scripts import (
+        accessor,
+        downscaling,
+        dyadic_pyramid,
+        precomputed_io,
+    )
+    case = dict(_case(size, res, target, None), kind="consumer")
+    info = base_info(size, res)
+    try:
+        dyadic_pyramid.fill_scales_for_dyadic_pyramid(
+            info, target_chunk_size=target)
+    except Exception:
+        col.ev(1, 0, "consumer-skipped/no-info")     # geometry family's job
+        return
+    scales = info["scales"]
+    for k in range(len(scales) - 1):
+        try:
+            why = envelope_ok(scales[k], scales[k + 1])
+        except Exception as exc:
+            why = repr(exc)
+        if why:
+            # reported (or listed as a known finding) by the geometry family
+            col.ev(1, 0, "consumer-skipped/outside-envelope")
+            return
+    d = sandbox.fresh_dir("c08c")
+    try:
+        acc = accessor.get_accessor_for_url(d, {"flat": True, "gzip": False})
+        pio = precomputed_io.get_IO_for_new_dataset(info, acc)
+        sc0 = scales[0]
+        z, y, x = np.meshgrid(np.arange(size[2]), np.arange(size[1]),
+                              np.arange(size[0]), indexing="ij")
+        vol = ((x * 3 + y * 5 + z * 7) % 200 + 1).astype("uint8")[np.newaxis]
+        for cc in pipeline.chunk_grid(sc0["size"], sc0["chunk_sizes"][0]):
+            pio.write_chunk(np.ascontiguousarray(
+                vol[:, cc[4]:cc[5], cc[2]:cc[3], cc[0]:cc[1]]), sc0["key"],
+                cc)
+        try:
+            with sandbox.quiet():
+                dyadic_pyramid.compute_dyadic_scales(
+                    pio, downscaling.get_downscaler("average"))
+        except Exception as exc:
+            col.ev(1, 1, "consumer-bad")
+            col.violation("C08/generated-info-refused-by-the-pyramid-"
+                          "computation/" + type(exc).__name__, case,
+                          "computed", repr(exc)[:200])
+            return
+        try:
+            rd = pipeline.open_dataset(d, {"flat": True, "gzip": False})
+            for i, sc in enumerate(scales):
+                lv = pipeline.read_scale(rd, i)
+                if list(lv.shape[1:][::-1]) != list(sc["size"]):
+                    raise ValueError("level %d has shape %r" % (i, lv.shape))
+        except Exception as exc:
+            col.ev(1, 1, "consumer-bad")
+            col.violation("C08/generated-info-computed-but-a-level-is-not-"
+                          "readable/" + type(exc).__name__, case,
+                          "every level readable", repr(exc)[:200])
+            return
+        col.ev(1, 1 if len(scales) >= 2 else 0, "consumer-ok")
+    finally:
+        sandbox.rm(d)
+
+
 def _via_file(info, target, max_scales, typ=None, enc=None, cli=False):
     from neuroglancer_scripts.scripts import generate_scales_info as g
     d = sandbox.fresh_dir("c08")
@@ -399,6 +486,9 @@ def units(tier):
     mc = magnitude_cases()
     for i in range(0, len(mc), 300):
         u.append({"kind": "magnitude", "lo": i, "hi": i + 300})
+    ncons = len(consumer_cases(tier))
+    for i in range(0, ncons, 64):
+        u.append({"kind": "consumer", "lo": i, "hi": i + 64, "tier": tier})
     return u
 
 
@@ -417,6 +507,12 @@ def run_unit(u):
         for shape, res, target in magnitude_cases()[u["lo"]:u["hi"]]:
             _eval_geometry(col, shape, res, target, None)
         col.sample(_case((4194305, 64, 64), (1, 1, 1), 64, None))
+        return col.result()
+    if u["kind"] == "consumer":
+        for size, res, target in consumer_cases(u["tier"])[u["lo"]:u["hi"]]:
+            _eval_consumer(col, size, res, target)
+        col.sample(dict(_case((30, 8, 1), (100, 100, 800), 4, None),
+                        kind="consumer"))
         return col.result()
     if u["kind"] == "geometry":
         sizes, ress, targets, ms = _lists(u["tier"])
@@ -462,7 +558,10 @@ def run_unit(u):
 
 def replay(case):
     col = Collector()
-    if case["kind"] == "geometry":
+    if case["kind"] == "consumer":
+        _eval_consumer(col, tuple(case["size"]), tuple(case["resolution"]),
+                       case["target"])
+    elif case["kind"] == "geometry":
         _eval_geometry(col, tuple(case["size"]), tuple(case["resolution"]),
                        case["target"], case["max_scales"],
                        via_file=case.get("via") == "generate_scales_info")
